@@ -35,7 +35,7 @@ def one(ent):
         if b.returncode != 0:
             return prop, commit, "NO-BUILD", b.stderr[-160:].replace("\n", " ")
         shutil.copy(V + "/known_findings.json", v)
-        r = subprocess.run([V + "/bin/nvet", "-prop", prop, "-repo", w, "-verif", v], env=ENV, capture_output=True, text=True)
+        r = subprocess.run([os.environ.get("NVET_BIN", V + "/bin/nvet"), "-prop", prop, "-repo", w, "-verif", v], env=ENV, capture_output=True, text=True)
         rules = sorted(set(re.findall(r"^(?:VIOLATION|UNDECIDED): \S+ (\S+) ", r.stdout, re.M)))
         line = "VIOLATION property=%s" % prop in r.stdout
         ok = r.returncode == 1 and line and any(x.startswith(prop) for x in rules)
